@@ -596,6 +596,10 @@ func (s *Sim) checkPools(v *view) {
 			clause := "sized-pool-grew-beyond-size"
 			if op := s.lastOp(); op == "bind" && s.lastBindFilterPredatesSize(name, bound) {
 				clause += ":filter-predates-size-in-force"
+			} else if op == "bind" && s.lastBindHeldNothing(name) {
+				// the IP the filter had allocated for the pod (inside the pool lock, counted) was taken away before the
+				// bind (configuration reload dropped it, administrator released it): bind allocates a fresh one itself
+				clause += ":filter-allocation-gone-before-bind"
 			}
 			s.alarm("C07", clause, fmt.Sprintf("pool %s holds %d IPs (was %d) with size %d in force", name, cnt, prev, bound))
 		}
@@ -1174,6 +1178,18 @@ func (s *Sim) lastOp() string {
 }
 
 // lastBindFilterPredatesSize: the pod bound in the last step was filtered when the pool had no size, or a larger one.
+// lastBindHeldNothing: the pod of the last bind belongs to the pool and its key held no IP right before the bind.
+func (s *Sim) lastBindHeldNothing(pool string) bool {
+	if s.lastBindPod == "" {
+		return false
+	}
+	r := s.Pods[s.lastBindPod]
+	if r == nil || r.WL.Pool != pool {
+		return false
+	}
+	return len(heldBy(s.prevDump, s.podKey(r.WL, r.Name))) == 0
+}
+
 func (s *Sim) lastBindFilterPredatesSize(pool string, bound int) bool {
 	if s.lastBindPod == "" {
 		return false
